@@ -87,18 +87,26 @@ def _mult_configs():
 
 
 # ------------------------------------------------------------------ data
-def gen_data(seed, multi_year, base):
+def gen_data(seed, multi_year, base, cal="any"):
     """three dated tas-like series from one numpy seed. base = "K" | "C" (unit of the original data) | "pos" (positive,
     for the multiplicative forms). multi_year: the future period spans several years (every 4th day) so that year
-    windows of CDFt / QDM are several"""
+    windows of CDFt / QDM are several.  cal: "leap" = obs and cm_future contain a 31 December of a leap year (366 days
+    of year present), "noleap" = they lie entirely in non-leap years (365 days of year), "any" = random start"""
     nprs = np.random.RandomState(seed)
     y0 = 1960 + int(nprs.randint(0, 100))
-    dO = probes.dates_from(datetime.date(y0 - 25, 1 + int(nprs.randint(0, 12)), 1 + int(nprs.randint(0, 28))), 700 + int(nprs.randint(0, 300)))
+    sO = datetime.date(y0 - 25, 1 + int(nprs.randint(0, 12)), 1 + int(nprs.randint(0, 28)))
+    sF = datetime.date(y0, 1 + int(nprs.randint(0, 12)), 1 + int(nprs.randint(0, 28)))
+    nO, nF = 700 + int(nprs.randint(0, 300)), 600 + int(nprs.randint(0, 400))
+    if cal in ("leap", "noleap"):
+        y0 = 1964 + 4 * int(nprs.randint(0, 23)) + (1 if cal == "noleap" else 0)  # leap year / the year after one (2100 not reached)
+        sO = datetime.date(y0 - 24, 1, 1) + datetime.timedelta(days=int(nprs.randint(0, 100)))
+        sF = datetime.date(y0, 1, 1) + datetime.timedelta(days=int(nprs.randint(0, 100)))
+    dO = probes.dates_from(sO, nO)
     dH = probes.dates_from(datetime.date(y0 - 26, 1, 1), 730 + int(nprs.randint(0, 300)))
     if multi_year:
         dF = probes.dates_from(datetime.date(y0, 1 + int(nprs.randint(0, 12)), 1), 366 * 7)[:: 4]
     else:
-        dF = probes.dates_from(datetime.date(y0, 1 + int(nprs.randint(0, 12)), 1 + int(nprs.randint(0, 28))), 600 + int(nprs.randint(0, 400)))
+        dF = probes.dates_from(sF, nF)
     off = {"K": 273.15, "C": 0.0, "pos": 273.15}[base]
     o = probes.tas_like(nprs, dO, off + 9.0, 3.0)
     h = probes.tas_like(nprs, dH, off + 11.5, 4.5)
@@ -106,12 +114,107 @@ def gen_data(seed, multi_year, base):
     return o, h, f, dO, dH, dF
 
 
+# (running_window_step_length, calendar kind): default and non-default step lengths, in particular those with
+# (#days of year present) % step == 1 in a leap (366: 5, 73) / non-leap (365: 7, 13, 91) span; None = drawn per case.
+# 13 entries (prime) so that every entry meets every configuration / mode as the case counter advances
+STEP_CAL = [(1, "any"), (5, "leap"), (7, "noleap"), (13, "noleap"), (31, "any"), (73, "leap"), (91, "noleap"), (None, "any"),
+            (5, "noleap"), (7, "leap"), (61, "any"), (15, "leap"), (73, "noleap")]
+
+
+def window_plan(wk):
+    S, cal = STEP_CAL[wk % len(STEP_CAL)]
+    if S is None:
+        S = 2 + (wk * 37) % 120
+    # the window is at least a month long: every window then holds values of all three series (an empty window sample is the
+    # `undef` domain of the window functions — NaN for a reason other than a step nobody wrote)
+    L = max(S, 31) + [0, 30, 60][(wk // len(STEP_CAL)) % 3]
+    return S, L, cal
+
+
 def window_kwargs(mode, rng_state):
     if mode == "nowindow":
         return dict(running_window_mode=False)
-    S = [15, 31, 61][rng_state % 3]
-    L = S + [0, 30, 60][(rng_state // 3) % 3]
+    S, L, _cal = window_plan(rng_state)
     return dict(running_window_mode=True, running_window_length=L, running_window_step_length=S)
+
+
+# ------------------------------------------------------------------ construction sequences (state shared between instances)
+CLASS_VARS = {  # variables each debiaser class has (experimental) default settings for
+    "LinearScaling": ["pr", "tasmin", "tasmax", "hurs", "psl", "rlds", "rsds", "sfcwind"],
+    "DeltaChange": ["pr", "tasmin", "tasmax", "hurs", "psl", "rlds", "rsds", "sfcwind"],
+    "QuantileMapping": ["pr", "hurs", "psl", "rlds", "sfcwind", "tasmin", "tasmax"],
+    "ScaledDistributionMapping": ["pr", "tasmin", "tasmax"],
+    "CDFt": ["pr", "tasmin", "tasmax", "hurs", "psl", "rlds", "rsds", "sfcwind", "tasrange", "tasskew"],
+    "ECDFM": ["pr", "hurs", "psl", "rlds", "sfcwind", "tasmin", "tasmax"],
+    "QuantileDeltaMapping": ["pr", "hurs", "psl", "rlds", "sfcwind", "tasmin", "tasmax"],
+    "ISIMIP": ["hurs", "pr", "prsnratio", "psl", "rsds", "rlds", "sfcwind", "tasrange", "tasskew"],
+}
+
+
+def make_prelude(name, k):
+    """debiasers constructed (and thrown away) in this process before the one under test: two of the same class for other
+    variables and one of another class, rotating with the case counter — `from_variable` must not leave anything behind"""
+    cls = name.split("-")[0]
+    vs = CLASS_VARS[cls]
+    other = list(CLASS_VARS)[(k // 3) % len(CLASS_VARS)]
+    pre = [[cls, vs[k % len(vs)]], [cls, vs[(k // 2 + 3) % len(vs)]], [other, CLASS_VARS[other][(k // 5) % len(CLASS_VARS[other])]]]
+    return pre if k % 4 != 3 else []  # a quarter of the cases without any (the debiaser under test built first)
+
+
+def run_prelude(prelude):
+    import ibicus.debias as D
+
+    for cls, var in prelude or []:
+        with warnings.catch_warnings():
+            warnings.simplefilter("ignore")
+            try:
+                getattr(D, cls).from_variable(var)
+            except Exception:  # noqa: BLE001  (a variable a class cannot be built for is not this check's business)
+                pass
+
+
+def canon_vars(obj):
+    """a comparable snapshot of a debiaser's configuration"""
+    import attrs
+
+    def c(v):
+        if isinstance(v, (int, float, str, bool, type(None))):
+            return repr(v)
+        if isinstance(v, (list, tuple)):
+            return [c(x) for x in v]
+        if isinstance(v, dict):
+            return {str(k2): c(x) for k2, x in v.items()}
+        if attrs.has(type(v)):
+            return {a.name: c(getattr(v, a.name, None)) for a in attrs.fields(type(v))}
+        return type(v).__module__ + "." + type(v).__qualname__
+
+    return {k2: c(v) for k2, v in sorted(vars(obj).items())}
+
+
+def fresh_process_config(name, kw):
+    """configuration of the same debiaser built FIRST in a fresh interpreter (diagnosis of a hit only)"""
+    import json
+    import subprocess
+    import sys
+
+    code = ("import json,sys,warnings; warnings.simplefilter('ignore'); sys.path.insert(0, %r); from harness import c04; "
+            "f,_=({**c04._configs(), **c04._mult_configs()})[%r]; print('CFG'+json.dumps(c04.canon_vars(f(**%r))))" % (C.VERIF, name, kw))
+    try:
+        out = subprocess.run([sys.executable, "-c", code], capture_output=True, text=True, timeout=120).stdout
+        return json.loads([ln for ln in out.split("\n") if ln.startswith("CFG")][-1][3:])
+    except Exception:  # noqa: BLE001
+        return None
+
+
+def config_leak(name, factory, kw):
+    """which attributes of the debiaser built now (after everything this process constructed) differ from a fresh process"""
+    fresh = fresh_process_config(name, kw)
+    if fresh is None:
+        return None
+    with warnings.catch_warnings():
+        warnings.simplefilter("ignore")
+        now = canon_vars(factory(**kw))
+    return {k2: {"fresh_process": fresh.get(k2), "this_process": now.get(k2)} for k2 in sorted(set(fresh) | set(now)) if fresh.get(k2) != now.get(k2)}
 
 
 class AutoBinTieSpy:
@@ -185,9 +288,11 @@ def deviation(want, got, data, a, b):
     return int(bad.size), float(np.max(dev)) if dev.size else 0.0, int(bad[0]) if bad.size else -1, scale
 
 
-def oracle_case(name, kind, factory, mode, seed, a, b, base, multi_year, wk):
-    data = gen_data(seed, multi_year, base)
+def oracle_case(name, kind, factory, mode, seed, a, b, base, multi_year, wk, prelude=None):
+    cal = window_plan(wk)[2] if mode == "window" else "any"
+    data = gen_data(seed, multi_year, base, cal)
     kw = window_kwargs(mode, wk)
+    run_prelude(prelude)
     with AutoBinTieSpy() as spy:
         want, got = run_pair(factory, kw, data, a, b)
     nbad, mx, first, scale = deviation(want, got, data, a, b)
@@ -195,7 +300,12 @@ def oracle_case(name, kind, factory, mode, seed, a, b, base, multi_year, wk):
         # the float evaluation of numpy's auto bin count sat on an integer in some window: either side is legitimate
         TIES["auto_bins"] += 1
         nbad, mx = 0, 0.0
-    unassigned = int(np.isnan(want).sum())
+    # a time step that no window wrote: NaN under the verification hook (IBICUS_VERIF=1 NaN-fills fresh result buffers); without the
+    # hook it is 0.0 (ISIMIP: zeros_like) or uninitialised memory in EVERY unit, and 0.0 != a*0.0+b — a failing input of C04
+    un = np.where(np.isnan(want) | np.isnan(got))[0]
+    unassigned = int(un.size)
+    if unassigned and not nbad:
+        nbad, mx, first = unassigned, float("inf"), int(un[0])
     return nbad, mx, first, scale, unassigned, (want, got), kw
 
 
@@ -342,7 +452,7 @@ def run(tier, res, force_search=False):
     reps = 2 if quick else 24
     if force_search or not lean_ok or mismatches:
         reps *= 3
-    hits, worst, n_unassigned = [], {}, 0
+    hits, worst, n_unassigned, n_leak_diag = [], {}, 0, 0
     TIES["auto_bins"] = 0
     k = 0
     for rep in range(reps):
@@ -359,9 +469,12 @@ def run(tier, res, force_search=False):
                         base = "K"
                     multi_year = "years" in name or "default" in name or (kind == "isimip" and k % 2 == 0)
                     seed = rng.randint(0, 2**31 - 2)
-                    case = {"config": name, "mode": mode, "a": a, "b": b, "base": base, "multi_year": multi_year, "np_seed": seed, "wk": k}
+                    prelude = make_prelude(name, k)
+                    S_, L_, cal_ = window_plan(k)
+                    case = {"config": name, "mode": mode, "a": a, "b": b, "base": base, "multi_year": multi_year, "np_seed": seed, "wk": k,
+                            "constructed_before": prelude, "calendar": cal_ if mode == "window" and not multi_year else "any"}
                     try:
-                        nbad, mx, first, scale, unassigned, (want, got), kw = oracle_case(name, kind, factory, mode, seed, a, b, base, multi_year, k)
+                        nbad, mx, first, scale, unassigned, (want, got), kw = oracle_case(name, kind, factory, mode, seed, a, b, base, multi_year, k, prelude)
                     except Exception as ex:  # noqa: BLE001
                         hits.append((f"{name} [{mode}] a={a} b={b}: the run raised {type(ex).__name__}: {str(ex)[:200]}", case, None))
                         k += 1
@@ -370,9 +483,21 @@ def run(tier, res, force_search=False):
                     worst[name] = max(worst.get(name, 0.0), mx if np.isfinite(mx) else 1e300)
                     res.count((name, mode, a, b, base), True, sample={**case, "window": kw, "max_rel_dev": mx})
                     if nbad:
-                        hits.append((f"{name} [{mode}, {kw}] a={a:g} b={b:g} ({base}): f(g(x)) != g(f(x)) at {nbad} of {want.size} steps, max deviation "
-                                     f"{mx:.3g} x scale {scale:.4g}; first index {first}: g(f(x))={want[first]!r} f(g(x))={got[first]!r}",
-                                     case, {"index": first, "g_of_f": float(want[first]), "f_of_g": float(got[first]), "n_bad": nbad}))
+                        detail = {"index": first, "g_of_f": float(want[first]), "f_of_g": float(got[first]), "n_bad": nbad, "unassigned_steps": unassigned}
+                        what = (f"{unassigned} time step(s) are never assigned by any window (NaN under the IBICUS_VERIF hook; 0.0 / uninitialised memory in "
+                                f"every unit without it, and 0.0 != a*0.0+b), first index {first}" if unassigned and not np.isfinite(mx) and np.isnan(want[first]) or
+                                unassigned and np.isnan(got[first]) else
+                                f"f(g(x)) != g(f(x)) at {nbad} of {want.size} steps, max deviation {mx:.3g} x scale {scale:.4g}; first index {first}: "
+                                f"g(f(x))={want[first]!r} f(g(x))={got[first]!r}")
+                        leak = ""
+                        if n_leak_diag < 3:  # is the debiaser built in this process configured like one built first in a fresh process?
+                            n_leak_diag += 1
+                            diff = config_leak(name, factory, kw)
+                            detail["configuration_vs_fresh_process"] = diff
+                            if diff:
+                                leak = (f" — the debiaser built in this process (after constructing {prelude} and the earlier cases) is configured "
+                                        f"differently from one built first in a fresh process: {str(diff)[:300]}")
+                        hits.append((f"{name} [{mode}, {kw}, calendar {case['calendar']}] a={a:g} b={b:g} ({base}): {what}{leak}", case, detail))
                     k += 1
     # multiplicative LinearScaling / DeltaChange: pure rescaling, positive data
     for rep in range(reps * 2):
@@ -438,8 +563,10 @@ def replay(data):
         print("not reproduced")
         return 0
     nbad, mx, first, scale, unassigned, (want, got), kw = oracle_case(case["config"], kind, factory, case["mode"], case["np_seed"], case["a"],
-                                                                    case["b"], case["base"], case["multi_year"], case["wk"])
-    print(f"replay {case['config']} [{case['mode']}, {kw}] a={case['a']} b={case['b']}: {nbad} of {want.size} steps differ, max relative deviation {mx:.3g}")
+                                                                    case["b"], case["base"], case["multi_year"], case["wk"],
+                                                                    case.get("constructed_before"))
+    print(f"replay {case['config']} [{case['mode']}, {kw}] a={case['a']} b={case['b']} after constructing {case.get('constructed_before')}: "
+          f"{nbad} of {want.size} steps differ or are unassigned ({unassigned} unassigned), max relative deviation {mx:.3g}")
     if nbad:
         print(f"  first index {first}: g(f(x)) = {want[first]!r}   f(g(x)) = {got[first]!r}")
         print(f"VIOLATION property={PROP} (reproduced)")
